@@ -98,6 +98,14 @@ def step (d : Option DSt) (t : List String) : Option DSt × List String :=
     match parseTask? tk with
     | some tk => doOp d (.cancel tk)
     | none => (some d, ["bad-op"])
+  | some d, ["stale_link", tk] =>
+    -- the harness leaves stale links in the task's list node; task nodes are not part of the abstract state (list
+    -- membership is), so this is a no-op on the model (refused, like every wrapper action, for a pending task)
+    match parseTask? tk with
+    | some tk =>
+      let s' := if tk < d.s.ntasks ∧ d.s.scheduled tk = false then d.s else skip d.s
+      (some { d with s := s' }, report d.s s')
+    | none => (some d, ["bad-op"])
   | some d, ["cancel_raw", tk] =>
     -- `aws_task_scheduler_cancel_task` without the client wrapper's guard (outside the API contract the theorems
     -- assume): the C code itself — unlink / remove by handle if applicable, then `aws_task_run(task, CANCELED)`
